@@ -155,8 +155,26 @@ def frames_match(a, b, ordered_by=None, reverse=(), check_column_order=False):
         kb = [tuple(r[i] for i in idx) for r in rb]
         for i, (x, y) in enumerate(zip(ka, kb)):
             if not row_eq(x, y):
+                if _near_tied_float_keys(ka, kb):
+                    # two order-key values that are equal within the float tolerance but not identical (4.0 and
+                    # 3.9999999999999996 from two math libraries): which row comes first is decided by the last bit,
+                    # the order of the two results is not comparable
+                    return None
                 return f"row order differs at position {i} on keys {ordered_by}: {x} vs {y}"
     return None
+
+
+def _near_tied_float_keys(ka, kb):
+    """True if some float component of the order keys takes two different values (within or across the two results)
+    that are equal under the comparison tolerance"""
+    if not ka:
+        return False
+    for j in range(len(ka[0])):
+        vals = sorted({float(k[j]) for k in list(ka) + list(kb) if isinstance(k[j], float) and not math.isnan(k[j]) and not math.isinf(k[j])})
+        for u, v in zip(vals, vals[1:]):
+            if u != v and abs(u - v) <= max(ABS, REL * max(abs(u), abs(v))):
+                return True
+    return False
 
 
 def frame_to_json(d, limit=50):
